@@ -18,14 +18,14 @@ Not yet proved in general: uniqueness of component names over a whole forest (ne
 -/
 namespace Bluebell
 
-theorem C15_name_format (st : GenState) (item : Item) :
+theorem C15_name_format (parent : Option String) (st : GenState) (item : Item) :
     let name := ((item.attribs.getD []).lookup "name").getD "attachment"
-    let key := match st.attNames.head? with | some p => p ++ "__" ++ name | none => name
+    let key := match parent with | some p => p ++ "__" ++ name | none => name
     let n := (st.ids.incr "__attachments" key).2
-    (attachmentName st item).2 =
-      (match st.attNames.head? with | some p => p ++ "/" ++ name ++ "_" ++ toString n | none => name ++ "_" ++ toString n) := by
+    (attachmentName parent st item).2 =
+      (match parent with | some p => p ++ "/" ++ name ++ "_" ++ toString n | none => name ++ "_" ++ toString n) := by
   simp only [attachmentName]
-  cases st.attNames.head? <;> rfl
+  cases parent <;> rfl
 
 theorem lookup_bumpC_self (m : List ((String × String) × Nat)) (k : String × String) :
     ((bumpC m k).lookup k).getD 0 = (m.lookup k).getD 0 + 1 := by
